@@ -381,3 +381,78 @@ def surface_job(args):
                                 "dense_to_rare": n1v > n2v, "met_backwards": reverse},
                        "_in": {"lens": desc, "ray": int(r)}})
     return {"seed": seed, "events": events, "skipped": skipped, "traces": 3, "desc": desc}
+
+
+# --------------------------------------------------------------------- an element inside a lens
+def inlens_job(args):
+    """A Jones polarizer used as the coating of a surface of a centred singlet of a
+    lossless ideal glass (no other coating: the trace applies no other loss).  The element is
+    handed to the trace the way FresnelCoating hands JonesFresnel: a BaseCoatingPolarized whose
+    .jones is the element.  Circular polarizers (circular states do not depend on the transverse
+    basis): every ray of a hexapolar bundle, or a meridional fan through trace_generic, at a
+    random field."""
+    seed, = args
+    from optiland.optic import Optic
+    from optiland.materials import IdealMaterial
+    from optiland.coatings import BaseCoatingPolarized
+    from optiland.rays import PolarizationState, create_polarization
+    from optiland import jones as J
+    rnd = random.Random(seed)
+
+    class ElementCoating(BaseCoatingPolarized):
+        def __init__(self, jones):
+            self.jones = jones
+    # (circular polarizers only: the library expresses an element in the local s/p frame of each ray at
+    # each surface - for an undeviated ray s = k x x^ is the y axis, for a deviated one the normal of its
+    # plane of incidence - so "horizontal" is not a direction a linear polarizer on a lens surface keeps;
+    # circular states are the same in every transverse frame)
+    name, other, cls_ = [("RCP", "LCP", J.JonesPolarizerRCP), ("LCP", "RCP", J.JonesPolarizerLCP)][seed % 2]
+    n = rnd.uniform(1.3, 1.9)
+    r1 = rnd.choice([math.inf, rnd.uniform(30.0, 80.0)])
+    r2 = rnd.choice([math.inf, -rnd.uniform(30.0, 80.0)])
+    where = rnd.choice(["front", "back"])
+    Hy = rnd.choice([0.0, 0.6, 1.0])
+
+    def lens(two):
+        o = Optic()
+        o.add_surface(index=0, radius=np.inf, thickness=np.inf)
+        cf = ElementCoating(cls_()) if (where == "front" or two) else None
+        cb = ElementCoating(cls_()) if (where == "back" or two) else None
+        o.add_surface(index=1, radius=r1, thickness=4.0, material=IdealMaterial(n=n), is_stop=True, coating=cf)
+        o.add_surface(index=2, radius=r2, thickness=30.0, coating=cb)
+        o.add_surface(index=3)
+        o.set_aperture("EPD", 8.0)
+        o.set_field_type("angle")
+        o.add_field(y=0.0)
+        o.add_field(y=rnd.choice([3.0, 8.0]))
+        o.add_wavelength(0.55, is_primary=True)
+        return o
+    desc = "singlet n=%s R=(%r, %r) with a %s polarizer on the %s surface, Hy=%s" % (float(n).hex(), r1, r2, name, where, Hy)
+    circular = seed % 4 < 2          # entry point: Optic.trace (hexapolar bundle) / Optic.trace_generic (meridional fan)
+    Py = np.array([-0.9, -0.4, 0.0, 0.3, 0.8])
+
+    def run(o, st):
+        o.set_polarization(PolarizationState(is_polarized=False) if st == "U" else create_polarization(st))
+        if circular:
+            r = G.quiet(o.trace, 0.0, Hy, 0.55, 2, "hexapolar")
+        else:
+            r = G.quiet(o.trace_generic, np.zeros(5), np.full(5, Hy), np.zeros(5), Py.copy(), 0.55)
+        return np.array(r.i, dtype=float), np.array(r.x, dtype=float)
+    try:
+        one, two = lens(False), lens(True)
+        ip, xp = run(one, name)
+        ib, _ = run(one, other)
+        iu, _ = run(one, "U")
+        it, _ = run(two, name)
+    except Exception as ex:
+        return {"error": "trace: %s: %s" % (type(ex).__name__, ex), "seed": seed, "events": [], "desc": desc}
+    events, skipped = [], 0
+    for r in rnd.sample(range(ip.size), min(3, ip.size)):
+        if not math.isfinite(xp[r]):
+            skipped += 1
+            continue
+        events.append({"t": "inlens", "ipass": dy(ip[r]), "iblock": dy(ib[r]), "iunpol": dy(iu[r]), "itwice": dy(it[r]),
+                       "_cls": {"coating": "element", "element": name, "entry": "trace" if circular else "trace_generic",
+                                "lens": "singlet"},
+                       "_in": {"lens": desc, "ray": int(r)}})
+    return {"seed": seed, "events": events, "skipped": skipped, "traces": 4, "desc": desc}
